@@ -90,6 +90,7 @@ type Scenario struct {
 	CustomExec  bool   `json:"customexec"` // register application executors MYCMD / mycmd2
 	Concurrent  bool   `json:"concurrent"` // every connection is driven by its own goroutine (true concurrency)
 	Model       bool   `json:"model"`      // replies (and the ref store's contents) are judged against RedisModel.tla
+	CloseFail   bool   `json:"closefail"`  // the transport's Close reports an error (after closing), as a TLS connection whose peer vanished does
 	SlowWrite   bool   `json:"slowwrite"`  // the scripted transport's Write is slow (see sconn.slow)
 	ModelConns  []int  `json:"modelconns"` // if set: only these connections are judged against the model (C07: the witness), no store dumps
 }
@@ -292,6 +293,7 @@ func (rn *runner) run(s Scenario) bool {
 	for i := range conns {
 		conns[i] = &connRun{sc: newSconn(i, rn.rec), done: make(chan struct{}), sentAt: time.Now()}
 		conns[i].sc.slow = s.SlowWrite
+		conns[i].sc.closeFail = s.CloseFail
 	}
 	server, handler := rn.newServer(s, conns)
 	rs, _ := handler.(*refStore)
